@@ -72,8 +72,12 @@ def session_item(i, s, wd, mode, outline):
     docver = {}          # the editor's version of each document
     for e in s["hist"]:
         f = e["file"]
-        if e["ev"] == "Save":
-            steps.append({"op": "save", "file": f + ".td"})
+        if e["ev"] in ("Save", "Close"):
+            # (didSave / didClose: the server keeps its buffer; whatever follows is answered from it)
+            steps.append({"op": e["ev"].lower(), "file": f + ".td"})
+            if e["ev"] == "Close" and mode == "settled" and outline:
+                steps.append({"op": "request", "method": "textDocument/documentSymbol", "file": f + ".td", "f": f})
+                steps.append({"op": "quiet"})
             continue
         # (versions need only increase within one open period: the first period starts high, a re-opened document starts at 1 again)
         docver[f] = (10 if e["ev"] == "Open" else 1) if e["ev"] in ("Open", "Reopen") else docver.get(f, 0) + 1
@@ -177,6 +181,8 @@ def leaves_with_problems(s):
     opened = {}
     prev_diag = set()
     for i, e in enumerate(s["hist"]):
+        if e["ev"] == "Close":
+            continue
         opened[e["file"]] = e["t"]
         root = e["file"]
         over = lambda f: opened.get(f) or (s["disk"][f] if s["disk"][f]["k"] >= 0 else None)
